@@ -16,9 +16,12 @@ import (
 	"os"
 	"os/exec"
 	"path/filepath"
+	"runtime"
 	"sort"
 	"strings"
 	"sync"
+	"sync/atomic"
+	"time"
 
 	"github.com/Dash-Industry-Forum/livesim2/cmd/livesim2/app"
 	"verifharness/lib"
@@ -136,7 +139,7 @@ func newHistoryEnv() (*historyEnv, error) {
 		"timesubs":   {"", "timesubsstpp_en,sv/", "timesubswvtt_en/"},
 		"mode":       {"", "segtimeline_1/", "segtimelinenr_1/"},
 	}
-	env.kindList = []string{"protection", "chunk", "ato", "numbering", "fault", "periods", "timesubs", "mode", "time", "error", "repeat", "sibling", "form"}
+	env.kindList = []string{"protection", "chunk", "ato", "numbering", "fault", "periods", "timesubs", "mode", "time", "time-backwards", "error", "repeat", "sibling", "form"}
 	env.prep, err = lib.NewLivesim(root, serverMod(env))
 	if err != nil {
 		cleanup()
@@ -231,7 +234,7 @@ func swapRep(rest string) (string, bool) {
 func (env *historyEnv) neighbours(t target, kind string) []string {
 	var out []string
 	switch kind {
-	case "time":
+	case "time", "time-backwards": // the same URL at other instants, oldest first / newest first
 		loop := int64(8000)
 		ds := []int64{-env.segMS[t.Asset], env.segMS[t.Asset], -loop, 10 * loop, -3_600_000, 3_600_000,
 			-1, -env.segMS[t.Asset] / 4, -env.segMS[t.Asset] / 2, -3 * env.segMS[t.Asset] / 4, env.segMS[t.Asset] / 4}
@@ -239,6 +242,23 @@ func (env *historyEnv) neighbours(t target, kind string) []string {
 		var nr int64
 		if _, err := fmt.Sscanf(filepath.Base(t.Rest), "%d.", &nr); err == nil && t.Opts["mode"] == "" && nr > 0 && nr < 1<<40 {
 			ds = append(ds, (nr+2)*env.segMS[t.Asset]+env.segMS[t.Asset]/4-t.NowMS)
+		}
+		// "time": the later instants first, then the earlier ones oldest first, so that the target is
+		// approached from the past (the last neighbours lie just before it, in the same segment
+		// interval); "time-backwards": approached from the future.
+		var before, after []int64
+		for _, d := range ds {
+			if d < 0 {
+				before = append(before, d)
+			} else if d > 0 {
+				after = append(after, d)
+			}
+		}
+		sort.Slice(before, func(i, j int) bool { return before[i] < before[j] })
+		sort.Slice(after, func(i, j int) bool { return after[i] > after[j] })
+		ds = append(append([]int64{}, after...), before...)
+		if kind == "time-backwards" {
+			ds = append(append([]int64{}, before...), after...)
 		}
 		for _, d := range ds {
 			x := t
@@ -530,9 +550,13 @@ func runHistories(c *lib.Ctx) (int, error) {
 	}
 	// storm: several different requests of ONE family at the same time (pooled buffers, shared scratch
 	// state): 16 goroutines loop over a handful of variants of the family's target
-	reps := 12
+	stormFor := 80 * time.Millisecond
 	if c.Thorough() {
-		reps = 150
+		stormFor = 800 * time.Millisecond
+	}
+	stormG := 4 * runtime.GOMAXPROCS(0)
+	if stormG < 32 {
+		stormG = 32
 	}
 	byFam := map[string][]target{}
 	var fams []string
@@ -571,31 +595,34 @@ func runHistories(c *lib.Ctx) (int, error) {
 		bad := map[string]proj{}
 		var wg2 sync.WaitGroup
 		gate := make(chan struct{})
-		for g := 0; g < 16; g++ {
+		var served atomic.Int64
+		deadline := time.Now().Add(stormFor)
+		for g := 0; g < stormG; g++ {
 			wg2.Add(1)
 			go func(g int) {
 				defer wg2.Done()
 				<-gate
-				for k := 0; k < reps; k++ {
+				for k := 0; k < 4 || time.Now().Before(deadline); k++ {
 					u := vs[(g+k)%len(vs)].url()
 					if p := project(long3.Get(u)); p != fresh[u] {
 						mu.Lock()
 						bad[u] = p
 						mu.Unlock()
 					}
+					served.Add(1)
 				}
 			}(g)
 		}
 		close(gate)
 		wg2.Wait()
-		n += 16 * reps
+		n += int(served.Load())
 		c.Count("history:" + f + ":same-family-concurrent")
 		for u, p := range bad {
 			var list []string
 			for _, v := range vs {
 				list = append(list, v.url())
 			}
-			c.Fail("history:"+u, "history:"+f+":same-family-concurrent", fmt.Sprintf("%s while 16 goroutines ask %d requests of the same family on one instance: %v; a fresh instance asked this only: %v", u, len(vs), p, fresh[u]),
+			c.Fail("history:"+u, "history:"+f+":same-family-concurrent", fmt.Sprintf("%s while many goroutines ask %d requests of the same family at the same time on one instance: %v; a fresh instance asked this only: %v", u, len(vs), p, fresh[u]),
 				c07in{Kind: "history", URL: u, Mode: "storm", History: &history{Target: vs[0], Kind: "same-family-concurrent", Reqs: list}})
 			break
 		}
@@ -662,11 +689,12 @@ func stormOnly(seed int64) error {
 		done[t.Family] = true
 		vs := env.variants(t)
 		var wg sync.WaitGroup
-		for g := 0; g < 16; g++ {
+		deadline := time.Now().Add(120 * time.Millisecond)
+		for g := 0; g < 4*runtime.GOMAXPROCS(0); g++ {
 			wg.Add(1)
 			go func(g int) {
 				defer wg.Done()
-				for k := 0; k < 6; k++ {
+				for k := 0; k < 2 || time.Now().Before(deadline); k++ {
 					ls.Get(vs[(g+k)%len(vs)].url())
 				}
 			}(g)
